@@ -210,17 +210,17 @@ package file
 // parseStreams: a stream line written as "    <name>: <number>" is split at the
 // writer's separator whatever characters the name contains (':' and ": "
 // included), provided the number has no ':' - i.e. at the LAST colon.
-// The slice after the separator is not proved safe for arbitrary garbage lines.
+// The slice after the separator is in range for every line (a line ending in ':' used
+// to panic; now an error like any other malformed line).
 // A line with an empty name ("    : 12", what save writes for an event whose stream
 // field is the empty string) is accepted: a cover clause - some path reaches the map
 // update with an empty name - fails when a check in front of it rejects such lines.
 
 //@ func (*offsetDB).parseStreams
-//@   assume-safe "offsetStr := line[pos+2:]" only lines produced by the writer are in scope
 //@   assert at "stream := pipeline.StreamName(line[4:pos])" forall k :: (0 <= k && 4 + k + 1 < len(line) && line[4+k] == ':' && line[4+k+1] == ' ' && nochr(line[4+k+1:], ':')) ==> pos == 4 + k
 //@   cover at "streams[stream] = offset" len(stream) == 0 && pos == 4 && len(line) >= 7 && line[5] == ' '
 //@   ghost bad bool = false
-//@   ensures result1 != nil ==> bad || has || linePos < 5 || line[:4] != "    " || pos < 0
+//@   ensures result1 != nil ==> bad || has || linePos < 5 || line[:4] != "    " || pos < 0 || pos + 2 > len(line)
 //@   callee parseLine(c, p) (v, rest, err)
 //@     requires true
 //@     set bad := bad || err != nil
@@ -479,3 +479,27 @@ package file
 //@     pure
 //@     ensures typeis(r, "*syscall.Stat_t") && !isnil(r)
 //@   loop 1 invariant true
+
+// load: the file info is used only when os.Stat succeeded (a stat error other than
+// not-exist - ENOTDIR, EACCES - used to dereference a nil info); every failure is an
+// error or a deliberate fatal message.
+
+//@ func (*offsetDB).load
+//@   option allow-exit yes
+//@   ghost gerr bool = false
+//@   callee Stat(name) (info, err)
+//@     pure
+//@     set gerr := err != nil
+//@   callee IsNotExist(e) (r)
+//@     pure
+//@   callee IsDir() (r)
+//@     requires !gerr
+//@     pure
+//@   callee ReadFile(n) (b, err)
+//@     pure
+//@   callee parse(c) (o, err)
+//@     pure
+//@   callee Infof(f, a)
+//@     pure
+//@   callee Errorf(f, a) (e)
+//@     pure
